@@ -40,21 +40,21 @@ UNITS = {
 
 # property -> list of (unit, features)
 PROP_UNITS = {
-    "C01": [("state", ()), ("handle", ()), ("swrite", ()), ("collide", ()), ("ffilter", ()), ("hindex", ()), ("restartnum", ()), ("siblings", ())],
-    "C02": [("spec", TF), ("logger", TF), ("handle_c", TF), ("handle_d", TF), ("lbuild", ()), ("specbuilder", TF)],
+    "C01": [("state", ()), ("handle", ()), ("swrite", ()), ("collide", ()), ("ffilter", ()), ("hindex", ()), ("restartnum", ()), ("siblings", ()), ("lh", TF)],
+    "C02": [("spec", TF), ("logger", TF), ("handle_c", TF), ("handle_d", TF), ("lbuild", ()), ("specbuilder", TF), ("flw", ()), ("primary", ())],
     "C04": [("state", ()), ("handle", ()), ("flw", ()), ("primary", ()), ("dispatch", ("async",)), ("stdw", ("async",)), ("lh", TF), ("lbuild", ()), ("handle_async", ("async",)), ("logger", TF), ("wmode", ()), ("wmode", ("async",)), ("multi", ())],
-    "C05": [("handle_a", TF), ("handle_b", TF), ("handle_b2", TF), ("handle_c", TF), ("spec", TF), ("lbuild", ())],
-    "C06": [("state", ()), ("timestamps", ()), ("builder", ()), ("collide", ()), ("latest", ()), ("ffilter", ()), ("hindex", ()), ("restartnum", ()), ("siblings", ())],
-    "C07": [("state", ()), ("listing", ()), ("cleanup", ()), ("collide", ()), ("builder", ()), ("builder", ("async",)), ("ffilter", ()), ("restartnum", ()), ("siblings", ())],
-    "C08": [("state", ())],
-    "C09": [("state", ()), ("timestamps", ()), ("builder", ())],
+    "C05": [("handle_a", TF), ("handle_b", TF), ("handle_b2", TF), ("handle_c", TF), ("spec", TF), ("lbuild", ()), ("specparse", TF), ("handle_d", TF)],
+    "C06": [("state", ()), ("timestamps", ()), ("builder", ()), ("collide", ()), ("latest", ()), ("ffilter", ()), ("hindex", ()), ("restartnum", ()), ("siblings", ()), ("infix", ()), ("lbuild", ())],
+    "C07": [("state", ()), ("listing", ()), ("cleanup", ()), ("collide", ()), ("builder", ()), ("builder", ("async",)), ("ffilter", ()), ("restartnum", ()), ("siblings", ()), ("infix", ()), ("lbuild", ())],
+    "C08": [("state", ()), ("builder", ()), ("flw", ()), ("lbuild", ()), ("multi", ())],
+    "C09": [("state", ()), ("timestamps", ()), ("builder", ()), ("lbuild", ())],
     "C13": [("logger", TF), ("flw", ()), ("multi", ()), ("primary", ()), ("lh", TF), ("lbuild", ()), ("builder", ())],
     "C14": [("state", ()), ("listing", ()), ("naming", ()), ("timestamps", ()), ("cleanup", ()), ("latest", ()), ("infix", ()), ("symlink", ()), ("ffilter", ()), ("siblings", ())],
     "C15": [("state", ()), ("handle", ()), ("flw", ()), ("dispatch", ("async",)), ("handle_async", ("async",)), ("swrite", ()), ("stdw", ("async",)), ("lbuild", ()), ("flw", ("async",)), ("primary", ()), ("wmode", ()), ("wmode", ("async",)), ("builder", ())],
-    "C16": [("naming", ()), ("listing", ()), ("state", ()), ("builder", ()), ("handle", ()), ("flw", ()), ("multi", ()), ("primary", ()), ("lh", TF), ("symlink", ()), ("ffilter", ()), ("tsformat", ())],
+    "C16": [("naming", ()), ("listing", ()), ("state", ()), ("builder", ()), ("handle", ()), ("flw", ()), ("multi", ()), ("primary", ()), ("lh", TF), ("symlink", ()), ("ffilter", ()), ("tsformat", ()), ("lbuild", ())],
     "C17": [("specparse", TF)],
-    "C18": [("state", ()), ("handle", ()), ("builder", ()), ("lh", TF)],
-    "C19": [("state", ()), ("logger", TF), ("multi", ()), ("timestamps", ()), ("swrite", ()), ("lbuild", ()), ("symlink", ()), ("errchan", ())],
+    "C18": [("state", ()), ("handle", ()), ("builder", ()), ("lh", TF), ("flw", ()), ("multi", ())],
+    "C19": [("state", ()), ("logger", TF), ("multi", ()), ("timestamps", ()), ("swrite", ()), ("lbuild", ()), ("symlink", ()), ("errchan", ()), ("dispatch", ("async",)), ("stdw", ("async",))],
     "C20": [("swrite", ()), ("stdw", ("async",)), ("handle_async", ("async",)), ("dnow", ()), ("lbuild", ()), ("builder", ()), ("flw", ()), ("primary", ()), ("multi", ()), ("logger", TF)],
 }
 
@@ -78,3 +78,30 @@ C10_UNITS = sorted({(u, f) for u, fs in UNITS.items() for f in fs})
 C10_CLAIMED = True
 
 CLAIMED = sorted(set(PROP_UNITS) | set(PROP_KANI) | ({"C10"} if C10_CLAIMED else set()))
+
+
+def check_registration(verif_root):
+    """every property a unit's clauses are tagged with must run that unit (found by seed S-C18-6: unit `multi` carried C18 clauses that
+    the C18 check never ran)"""
+    import glob, os, re
+    reg = {}
+    for p, us in PROP_UNITS.items():
+        for u, _f in us:
+            reg.setdefault(u, set()).add(p)
+    bad = []
+    for f in sorted(glob.glob(os.path.join(verif_root, "units", "*.rs"))):
+        u = os.path.basename(f)[:-3]
+        if u not in UNITS:
+            continue
+        txt = open(f, encoding="utf-8").read()
+        tags = set()
+        for m in re.finditer(r"//@\s+props\s+([C0-9,]+)", txt):
+            tags |= set(m.group(1).split(","))
+        for m in re.finditer(r"//@label\s+\S+\s+([C0-9,]+)", txt):
+            tags |= set(m.group(1).split(","))
+        tags.discard("C10")
+        tags.discard("")
+        for t in sorted(tags):
+            if t not in reg.get(u, set()):
+                bad.append((u, t))
+    return bad
